@@ -38,6 +38,7 @@ type Fw struct {
 	Hook   string `json:"hook"`
 	Gas    int64  `json:"gas"`
 	MaxFee int64  `json:"maxfee"`
+	Mfd    string `json:"mfd"` // max fee denom
 	Meta   string `json:"meta"` // "NONE" | "0x" | "0xAB" | "BAD"
 	To     string `json:"to"`   // INT recipient: account name | "ORB_UPPER" | "INVALID" | "EMPTY"
 	Pt     int64  `json:"pt"`   // passthrough payload length
@@ -183,6 +184,9 @@ func (in *Input) normalise() {
 	}
 	if in.Fw.Pid == "" {
 		in.Fw = Fw{Pid: "INT", At: "INT", Mint: "NONE", Caller: "NONE", Tok: "NONE", Rcp: "NONE", Hook: "NONE", Meta: "NONE", To: "U"}
+	}
+	if in.Fw.Mfd == "" {
+		in.Fw.Mfd = "uusdc"
 	}
 	for _, p := range []*string{&in.Fw.Mint, &in.Fw.Caller, &in.Fw.Tok, &in.Fw.Rcp, &in.Fw.Hook, &in.Fw.Meta, &in.Fw.To} {
 		if *p == "" {
@@ -392,9 +396,9 @@ func (w *World) fwJSON(f Fw) string {
 		attrs = fmt.Sprintf(`{"@type":%s,"destination_domain":%d,"mint_recipient":%s,"destination_caller":%s}`,
 			jstr(attrURL["CCTP"]), f.Dom, jstr(b64(w.bytesOf(f.Mint))), jstr(b64(w.bytesOf(f.Caller))))
 	case "HYP":
-		attrs = fmt.Sprintf(`{"@type":%s,"token_id":%s,"destination_domain":%d,"recipient":%s,"custom_hook_id":%s,"custom_hook_metadata":%s,"gas_limit":%s,"max_fee":{"denom":"uusdc","amount":%s}}`,
+		attrs = fmt.Sprintf(`{"@type":%s,"token_id":%s,"destination_domain":%d,"recipient":%s,"custom_hook_id":%s,"custom_hook_metadata":%s,"gas_limit":%s,"max_fee":{"denom":%s,"amount":%s}}`,
 			jstr(attrURL["HYP"]), jstr(b64(w.bytesOf(f.Tok))), f.Dom, jstr(b64(w.bytesOf(f.Rcp))),
-			jstr(b64(w.bytesOf(f.Hook))), jstr(metaString(f.Meta)), jstr(strconv.FormatInt(f.Gas, 10)), jstr(strconv.FormatInt(f.MaxFee, 10)))
+			jstr(b64(w.bytesOf(f.Hook))), jstr(metaString(f.Meta)), jstr(strconv.FormatInt(f.Gas, 10)), jstr(f.Mfd), jstr(strconv.FormatInt(f.MaxFee, 10)))
 	case "INT":
 		attrs = fmt.Sprintf(`{"@type":%s,"recipient":%s}`, jstr(attrURL["INT"]), jstr(w.addrOf(f.To)))
 	case "FEE":
